@@ -89,7 +89,7 @@ class InstrumentMachine(Machine):
     pid = "C16"
     title = "Instruments: settings follow parameters, calibration conserves the spectrum"
     quick_runs = 4000
-    thorough_runs = 100000
+    thorough_runs = 600000
     components_real = ["cherab.tools.spectroscopy.* (pure Python)", "raysect.optical.Spectrum.integrate", "raysect pipelines"]
     components_stub = []
     assumptions = [
